@@ -180,8 +180,7 @@ def job_static(timeout_ms):
     obs = [Obligation("C18/_poisson/mask-starts-as-zeros", [], z3.BoolVal(ast.unparse(first).startswith("mask = np.zeros((ny, nx))")), meta),
            Obligation("C18/_poisson/every-store-to-mask-writes-the-constant-1", [], z3.BoolVal(bool(stores) and all(ok for _, ok in stores) and not other),
                       dict(meta, stores=stores)),
-           Obligation("C18/_poisson/calibration-block-store-is-the-first-store", [], z3.BoolVal(
-               "int(ny / 2 - calib[-2] / 2):int(ny / 2 + calib[-2] / 2), int(nx / 2 - calib[-1] / 2):int(nx / 2 + calib[-1] / 2)" in ast.unparse(node).replace("\\n", "")), meta),
+           ] + _calib_block_obligations(node, meta) + [
            Obligation("C18/_poisson/returns-mask", [], z3.BoolVal(ast.unparse(node.body[-1]) == "return mask"), meta),
            Obligation("C18/_poisson/seeds-its-generator-with-the-seed-argument", [], z3.BoolVal("np.random.seed(int(seed))" in ast.unparse(node)), meta)]
     # determinism of poisson: no other global reads
@@ -192,6 +191,56 @@ def job_static(timeout_ms):
     free = names - params - local - {"np", "_poisson", "abs", "max", "ValueError"}
     obs.append(Obligation("C18/poisson/depends-only-on-its-arguments(no-other-global-reads)", [], z3.BoolVal(not free), dict(meta, free=sorted(free))))
     return check_obligations(obs, timeout_ms)
+
+
+def _calib_block_obligations(node, meta):
+    """semantic (not textual) obligations on the first store into `mask` in the real _poisson: it is a 2-D slice store of
+    the constant 1 whose bounds, evaluated on symbolic integers 0 <= calib <= n, select exactly calib[k] consecutive
+    indices, inside the image, centred (lo == (n - calib) // 2)."""
+    first = None
+    for n in ast.walk(node):
+        if isinstance(n, ast.Assign) and isinstance(n.targets[0], ast.Subscript) and isinstance(n.targets[0].value, ast.Name) \
+                and n.targets[0].value.id == "mask":
+            if first is None or n.lineno < first.lineno:
+                first = n
+    sl = first.targets[0].slice if first is not None else None
+    shape_ok = (first is not None and isinstance(first.value, ast.Constant) and first.value.value == 1 and isinstance(sl, ast.Tuple)
+                and len(sl.elts) == 2 and all(isinstance(e, ast.Slice) and e.lower is not None and e.upper is not None and e.step is None for e in sl.elts))
+    out = [Obligation("C18/_poisson/first-store-is-a-2-D-block-of-ones", [], z3.BoolVal(bool(shape_ok)), meta)]
+    if not shape_ok:
+        return out
+
+    def run():
+        nx, ny = Sym(z3.Int("nx")), Sym(z3.Int("ny"))
+        cy, cx = Sym(z3.Int("calib_y")), Sym(z3.Int("calib_x"))
+        core.assume(core.And(cy >= 0, cx >= 0, cy <= ny, cx <= nx, nx >= 1, ny >= 1))
+        ns = base_ns(nx=nx, ny=ny, calib=[cy, cx], max_attempts=Sym(z3.Int("max_attempts")), seed=None,
+                     radius_x=snp.SArr.input("radius_x", [ny, nx], valued="real"), radius_y=snp.SArr.input("radius_y", [ny, nx], valued="real"))
+        # the statements of the real body that precede the store (they may define the names the bounds use)
+        pre = [st for st in node.body if st.lineno < first.lineno and not (isinstance(st, ast.Expr) and isinstance(st.value, ast.Constant))]
+        exec(compile(ast.fix_missing_locations(ast.Module(body=pre, type_ignores=[])), "<repo>/sigpy/mri/samp.py", "exec"), ns)
+        vals = []
+        for e in sl.elts:
+            lo = eval(compile(ast.fix_missing_locations(ast.Expression(e.lower)), "<repo>/sigpy/mri/samp.py", "eval"), ns)
+            hi = eval(compile(ast.fix_missing_locations(ast.Expression(e.upper)), "<repo>/sigpy/mri/samp.py", "eval"), ns)
+            vals.append((S(lo), S(hi)))
+        return vals, (ny, nx), (cy, cx)
+    results = explore(run, max_paths=20)
+
+    def post(r):
+        if r.kind != "return":
+            return [("calibration-slice-bounds-evaluate", [], z3.BoolVal(False))]
+        vals, ns_, cs = r.value
+        obs = []
+        for ax, ((lo, hi), n, c) in enumerate(zip(vals, ns_, cs)):
+            obs.append(("calibration-block[axis %d]:exactly-calib-samples" % ax, [], (hi - lo == c).t))
+            obs.append(("calibration-block[axis %d]:inside-the-image" % ax, [], core._lb(core.And(lo >= 0, hi <= n))))
+            obs.append(("calibration-block[axis %d]:centred(lo==(n-calib)//2)" % ax, [], core._lb(core.And(2 * lo <= n - c, n - c <= 2 * lo + 1))))
+        return obs
+    obs, covers = path_obligations("C18/_poisson", results, post, instance="_poisson", fn_record=None)
+    for o in obs:
+        o.meta.update({k: v for k, v in meta.items() if k not in o.meta})
+    return out + obs
 
 
 def probes(tier, seed):
